@@ -260,6 +260,19 @@ check('C19', 'E1', 'exploration',
       'integer and exact arithmetic disagree are outside the alphabet.',
       'DESIGN.md 2/C19')
 
-_PENDING = {'C10': 'check not built yet in this round (planned: bounded exhaustive exploration, see DESIGN.md section 2)'}
+check('C10', 'E1', 'exploration',
+      'bounded exhaustive enumeration of list trees and tabulars (column specs, spans, rules, cell contents); AST-shape oracle',
+      'Lists: all labelled trees over itemize/enumerate/description of depth <= 3 (quick; 4 thorough) with <= 3 items per list and '
+      'six item-content forms, plus all unlabelled shapes under 18 labellings. Tables: every preamble of 1-3 (5) columns x every '
+      'bar subset x every spelling (@{} at every gap, *{k}{..} foldings); every span layout of n x r grids with <= 2 '
+      '\\multicolumn x every \\hline subset x one or two aligned \\cline x preamble/multicolumn-spec pairs; cell-content grids over 13 '
+      'kinds (empty, declarations, math, nested tabular/array/list, \\def leak probes); row terminators and wrappers. Observed on '
+      'the parsed tree: items per list in order with their content and terms, rows/cells with spans and marker text, declared '
+      'column count, horizontal and vertical rules as representation-independent sets, formatting ancestors per marker.',
+      'Trusted: vp/refs/c10_shape.py (prints each AST and folds it into the expected shape in the same pass, no plasTeX import); '
+      'only full rows with at least one non-empty cell and \\cline ranges made of whole cells are generated.',
+      'DESIGN.md 2/C10')
+
+_PENDING = {}
 for _p, _why in _PENDING.items():
     NOT_APPLICABLE.append({'property_id': _p, 'reason': _why})
